@@ -93,11 +93,11 @@ void QXmppIq::parseElementFromChild(const QDomElement &element)
 {
     QXmppElementList extensions;
 
-    // the first <error/> child is parsed into error() by QXmppStanza::parse() and written by
-    // toXml(); keeping it as an extension as well would duplicate it on every parse/serialize
-    const auto errorElement = firstChildElement(element, u"error");
+    // <error/> children are represented by error() (QXmppStanza::parse() takes the first one; an IQ
+    // carries at most one). Keeping further ones as extensions made them move into error() one by
+    // one on each parse/serialize pass (<iq><error/><error/><error/></iq> lost a child per pass).
     for (const auto &itemElement : iterChildElements(element)) {
-        if (!errorElement.isNull() && itemElement == errorElement) {
+        if (itemElement.tagName() == u"error") {
             continue;
         }
         extensions.append(QXmppElement(itemElement));
